@@ -5,7 +5,8 @@ from .. import common, gen, trees, parsing
 
 LEVEL = "proof"
 # the re-lexing theory and the print-and-reparse theorem the C11 / C13 / C18 theorems rest on are audited here
-EXTRA_LEAN_MODULES = ["Luqum.Props.LX", "Luqum.Props.Reparse", "Luqum.Props.GenGlue"]
+EXTRA_LEAN_MODULES = ["Luqum.Props.LX", "Luqum.Props.Reparse", "Luqum.Props.GenGlue", "Luqum.Props.GenHandle",
+                      "Luqum.Props.GenPrint"]   # the lexer's head/tail bookkeeping and __str__ translated from the source
 RULE = ("parsed queries (all constructs, random layouts incl. glued tokens) x {default copy, resolver x 4 targets x "
         "add_head, open-range conversion with and without merging, auto_head_tail}: the result is printed, parsed "
         "again, and both trees are compared by truth table over their leaves (all assignments up to 8 distinct "
